@@ -1395,3 +1395,44 @@ SPECS["C05"]["level_text"] += (' Props/C05H (track c10enc): DECODER runs (decode
     'anchored calls are NOT proved (the file header states the invariant that is missing), WorldInv.headPos is FALSE along decoder runs with anchored input '
     '(pinned example: decode_read of header-only bytes leaves a zero-count anchor on an empty deque until the next consume), and StreamChunker / StreamReader '
     'have no World-level model yet (what is needed is stated at the end of Props/C05H).')
+
+# ---- track traits: standard-trait methods over several object instances; behaviour during unwinding ----
+SPECS["C15"]["lean_modules"] += ["Woodpile.Props.C15T"]
+SPECS["C15"]["theorems"] += [
+    "Woodpile.Props.C15T.clone_from_is_assign",
+    "Woodpile.Props.C15T.clone_from_forgets_destination",
+    "Woodpile.Props.C15T.clone_is_copy",
+    "Woodpile.Props.C15T.default_is_new",
+    "Woodpile.Props.C15T.clone_from_run_refines_list",
+    "Woodpile.Props.C15T.multi_step_refines",
+    "Woodpile.Props.C15T.multi_run_refines",
+]
+SPECS["C15"]["level_text"] += (
+    " Track traits (Props/C15T, Model/DequeTraits): the standard-trait methods. clone_from_is_assign: Clone::clone_from leaves the "
+    "destination EQUAL to the source whatever state it was in (consumed prefix, spilled store, even a state violating the invariant); "
+    "clone copies the representation, Default is new(). multi_run_refines: histories over a current deque and any number of further "
+    "objects (handle ops store = clone, load, swap, clone_from onto either side, take = mem::take, new, default) interleaved with the "
+    "single-object ops never panic and every object behaves like its own reference List deque. The sdeque family drives them on the "
+    "real Vec- and SmallVec-backed deques (ops dnew ddefault dstore dload dswap dclone_from dclone_into dtake ddebug): 12 source states "
+    "x 12 destination states (fresh, cleared, popped without slide, exactly half consumed, just slid, spilled, emptied, ...) x 4 methods "
+    "enumerated, handle ops in a third of the random cases; oracle: after every handle op EVERY object shows its own reference VecDeque "
+    "and keeps the space bound; Deref / DerefMut / iter / get / len / first / last agree, Debug does not panic. Every op is also called "
+    "from a destructor while the thread unwinds from a caught panic (`unwinding <op>`, harness/src/unwind.rs; all 3-symbol sequences "
+    "enumerated, a quarter of the random cases), with the same model, observations and oracle.")
+SPECS["C16"]["lean_modules"] += ["Woodpile.Props.C16T"]
+SPECS["C16"]["theorems"] += [
+    "Woodpile.Props.C16T.clone_from_is_assign",
+    "Woodpile.Props.C16T.clone_from_forgets_destination",
+    "Woodpile.Props.C16T.clone_is_copy",
+    "Woodpile.Props.C16T.clone_from_run_refines",
+    "Woodpile.Props.C16T.multi_step_refines",
+    "Woodpile.Props.C16T.multi_run_refines",
+]
+SPECS["C16"]["level_text"] += (
+    " Track traits (Props/C16T, Model/DequeTraits): clone_from_is_assign (the destination's tombstones and consumed-but-unslid prefix "
+    "do not survive Clone::clone_from), clone copies the representation; multi_run_refines: valid histories over several objects "
+    "(clone, clone_from onto either side, mem::take, mem::swap, Default) interleaved with the single-object ops panic iff the reference "
+    "does and every object's present items are those of its own reference ordered map. The sorted family drives them for both "
+    "conventions on Vec- and SmallVec-backed deques (12 source x 12 destination states x 4 methods enumerated; handle ops in a third of "
+    "the random cases; oracle: every object against its own BTreeMap after every handle op), and calls every non-panicking op from a "
+    "destructor while the thread unwinds (`unwinding <op>`).")
